@@ -234,12 +234,11 @@ def handle : List String → String
     if kind != "void" && kind != "u64" && kind != "range" then "bad-op" else
     match bytesOfHex h with
     | some bs =>
-      match readBlocks bs.length bs with
+      let f := openFile bs
+      match readBlocks f.data.length f.data with
       | none => "truncated"
       | some blocks =>
-        let n := bs.length
-        let foot := bs.drop (n - Gen.SSTABLE_FOOTER_LEN)
-        s!"{if blocks.isEmpty then "_" else ";".intercalate (blocks.map (showRaw kind))}|n={u64le (foot.drop 8)},v={u32le (foot.drop 16)}"
+        s!"{if blocks.isEmpty then "_" else ";".intercalate (blocks.map (showRaw kind))}|n={f.numTerms},v={f.version}"
     | none => "bad-op"
   | ["encode", bl, ks] =>
     match bl.toNat?, keyList ks with
@@ -273,10 +272,7 @@ def handle : List String → String
   | ["index", h, os] =>
     match bytesOfHex h, valList os with
     | some bs, some os =>
-      let n := bs.length
-      let foot := bs.drop (n - Gen.SSTABLE_FOOTER_LEN)
-      let indexOffset := u64le foot
-      let indexBytes := (bs.take (n - Gen.SSTABLE_FOOTER_LEN)).drop indexOffset
+      let indexBytes := (openFile bs).index
       let fstLen := u64le (indexBytes.drop (indexBytes.length - 8))
       if fstLen = 0 then "empty"
       else
